@@ -182,9 +182,9 @@ def choice_fail_wait(x: int, t1: int, has_default: bool, has_err: bool, has_caus
 
 
 @condition(timeout={"quick": 300, "thorough": 900}, functions=["asl_state_Parallel_delegate", "asl_state_Map_delegate", "asl_state_collect_results", "find_state"])
-def fanout(kind: int, n: int, rp: int, op: int, sel: bool, fail_at: int, x: int) -> bool:
+def fanout(kind: int, n: int, ip: int, rp: int, op: int, sel: bool, fail_at: int, x: int) -> bool:
     """
-    requires: 0 <= kind < 2 and 0 <= n <= 2 and rp in (0, 2, 3) and op in (0, 3) and -1 <= fail_at < 2 and 0 <= x <= 1
+    requires: 0 <= kind < 2 and 0 <= n <= 2 and ip in (0, 1) and rp in (0, 2, 3) and op in (0, 3) and -1 <= fail_at < 2 and 0 <= x <= 1
     requires: (kind == 1 or (n == 0 and not sel))
     ensures: _
     """
@@ -192,13 +192,15 @@ def fanout(kind: int, n: int, rp: int, op: int, sel: bool, fail_at: int, x: int)
         st = {"Type": "Parallel", "Branches": [
             {"StartAt": "A", "States": {"A": {"Type": "Pass", "Result": "a", "ResultPath": "$.m", "End": True}}},
             {"StartAt": "B", "States": {"B": {"Type": "Task", "Resource": RES, "Next": "B2"}, "B2": {"Type": "Pass", "End": True}}}]}
-        data = {"x": x, "items": []}
+        data = {"x": x, "items": [], "sub": {"x": x, "s": 1}}
     else:
         st = {"Type": "Map", "ItemsPath": "$.items", "MaxConcurrency": 1,
               "Iterator": {"StartAt": "I", "States": {"I": {"Type": "Task", "Resource": RES, "End": True}}}}
         if sel:
             st["ItemSelector"] = {"it.$": "$$.Map.Item.Value", "ix.$": "$$.Map.Item.Index", "top.$": "$.x"}
-        data = {"x": x, "items": [{"i": k + x} for k in range(n)]}
+        data = {"x": x, "items": [{"i": k + x} for k in range(n)], "sub": {"x": x, "items": [{"i": k + x + 5} for k in range(n)]}}
+    if ip == 1:
+        st["InputPath"] = "$.sub"
     setf(st, "ResultPath", pick(RPATHS, rp)); setf(st, "OutputPath", pick(OPATHS, op))
     st["Next"] = "Z"
     asl = {"StartAt": "F", "States": {"F": st, "Z": {"Type": "Pass", "Result": "z", "ResultPath": "$.z", "End": True}}}
